@@ -154,11 +154,21 @@ def mask_model(line):
     return " ".join(p), (int(doy), int(year), int(reclen))
 
 
+FIXED_DATES = [date(2024, 12, 31), date(2020, 12, 31), date(2000, 12, 31), date(2024, 2, 29), date(2023, 12, 31), date(1900, 12, 31), date(2024, 1, 1), date(1, 1, 1),
+               date(9999, 12, 31), date(2400, 12, 31)]
+
+
 def codec_layer(ck, n_cases):
     from laspy.header import LasHeader
     lines, meta = [], []
+    KEPT = []
     for ci in range(n_cases):
         h, f = gen_header(ck.rng)
+        if ci < len(FIXED_DATES):
+            # whatever the seed: the last day of leap years (day 366), leap days, first and last days
+            f["date"] = FIXED_DATES[ci]
+            f["doy"], f["year"] = FIXED_DATES[ci].timetuple().tm_yday, FIXED_DATES[ci].year
+            h.creation_date = FIXED_DATES[ci]
         inp = {"kind": "header", "fields": {k: (v.hex() if isinstance(v, bytes) else str(v) if k in ("date",) else v) for k, v in f.items() if k != "vlrs"},
                "vlrs": [[u, r, d, p.hex()[:100]] for u, r, d, p in f["vlrs"]]}
         ck.case(("hdr", model_args(f)), nontrivial=True)
@@ -187,6 +197,16 @@ def codec_layer(ck, n_cases):
         if h2 is None:
             ck.fail(f"reading back a written header failed: {dec}", inp)
             continue
+        # the header read back before this one is still alive: it must not have changed
+        if KEPT:
+            hk, bits_k, inp_k = KEPT.pop()
+            now_k = ([dbits(float(x)) for x in hk.scales], [dbits(float(x)) for x in hk.offsets], [dbits(float(x)) for x in hk.maxs], [dbits(float(x)) for x in hk.mins],
+                     hk.global_encoding.value, [int(x) for x in hk.number_of_points_by_return], hk.point_format.id, len(hk.vlrs))
+            if now_k != bits_k:
+                which = [n_ for n_, a_, b_ in zip(("scales", "offsets", "maxs", "mins", "global_encoding", "returns", "point_format", "vlrs"), now_k, bits_k) if a_ != b_]
+                ck.fail(f"a header read back earlier changed ({', '.join(which)}) when another header was read", dict(inp, earlier=inp_k))
+        KEPT.append((h2, ([dbits(float(x)) for x in h2.scales], [dbits(float(x)) for x in h2.offsets], [dbits(float(x)) for x in h2.maxs], [dbits(float(x)) for x in h2.mins],
+                          h2.global_encoding.value, [int(x) for x in h2.number_of_points_by_return], h2.point_format.id, len(h2.vlrs)), inp))
         checks = [
             ("file_source_id", h2.file_source_id, f["fsid"]), ("global_encoding", h2.global_encoding.value, f["ge"]),
             ("uuid", h2.uuid.bytes_le, f["guid"]), ("version", (h2.version.major, h2.version.minor), (1, f["vmin"])),
